@@ -500,8 +500,18 @@ func (db *pgmini) evalCond(c string, r row) (bool, error) {
 		}
 		return true, nil
 	}
-	if len(findKeyword(c, "or")) > 0 {
-		return false, unsup("OR in condition %q", c)
+	if ors := splitTop(c, "or"); len(ors) > 1 {
+		// reached only when there is no top-level AND: a disjunction of parenthesised or atomic conditions
+		for _, p := range ors {
+			ok, err := db.evalCond(p, r)
+			if err != nil {
+				return false, err
+			}
+			if ok {
+				return true, nil
+			}
+		}
+		return false, nil
 	}
 	low := strings.ToLower(c)
 	if strings.HasSuffix(low, " is not null") {
@@ -522,6 +532,9 @@ func (db *pgmini) evalCond(c string, r row) (bool, error) {
 		}
 		i, _ := strconv.Atoi(m[2])
 		return i < len(seg) && seg[i] == m[3], nil
+	}
+	if m := reContainsArr.FindStringSubmatch(strings.TrimSpace(c)); m != nil {
+		return db.postingsContain(m[1], m[2], r)
 	}
 	m := reCmp.FindStringSubmatch(c)
 	if m == nil {
@@ -620,6 +633,80 @@ func (db *pgmini) segments(ref string, r row) ([]string, error) {
 		return nil, unsup("array reference %q over %T", ref, v)
 	}
 	return strings.Split(s, ":"), nil
+}
+
+// <sources|destinations>_arrays @> '<json>': the schema keeps, per transaction, one object per source (destination)
+// address: segment index -> segment, plus the number of segments -> null. Containment of a one-element array holding
+// an object: some address object has every key of the pattern with an equal value. The other form is
+// <sources|destinations> @> '["addr"]' over the plain address lists.
+var reContainsArr = regexp.MustCompile(`^(?:\S+\.)?(sources_arrays|destinations_arrays|sources|destinations)\s*@>\s*'(.*)'$`)
+
+func (db *pgmini) postingsContain(col, pattern string, r row) (bool, error) {
+	v, err := r.lookup("", "postings")
+	if err != nil {
+		return false, err
+	}
+	text, ok := v.(string)
+	if !ok {
+		return false, unsup("postings column of type %T", v)
+	}
+	var ps []struct {
+		Source      string `json:"source"`
+		Destination string `json:"destination"`
+	}
+	if err := json.Unmarshal([]byte(text), &ps); err != nil {
+		return false, unsup("postings %q", text)
+	}
+	addrs := []string{}
+	for _, p := range ps {
+		if strings.HasPrefix(col, "sources") {
+			addrs = append(addrs, p.Source)
+		} else {
+			addrs = append(addrs, p.Destination)
+		}
+	}
+	if !strings.HasSuffix(col, "_arrays") {
+		var want []string
+		if err := json.Unmarshal([]byte(pattern), &want); err != nil {
+			return false, unsup("containment pattern %q", pattern)
+		}
+		for _, w := range want {
+			found := false
+			for _, a := range addrs {
+				found = found || a == w
+			}
+			if !found {
+				return false, nil
+			}
+		}
+		return true, nil
+	}
+	var want []map[string]*string
+	if err := json.Unmarshal([]byte(pattern), &want); err != nil {
+		return false, unsup("containment pattern %q", pattern)
+	}
+	for _, w := range want {
+		found := false
+		for _, a := range addrs {
+			seg := strings.Split(a, ":")
+			obj := map[string]*string{strconv.Itoa(len(seg)): nil}
+			for i := range seg {
+				obj[strconv.Itoa(i)] = &seg[i]
+			}
+			all := true
+			for k, val := range w {
+				have, ok := obj[k]
+				if !ok || (val == nil) != (have == nil) || (val != nil && *val != *have) {
+					all = false
+				}
+			}
+			found = found || all
+		}
+		if !found {
+			return false, nil
+		}
+	}
+	return true, nil
 }
 
 var reJSONPathSeg = regexp.MustCompile(`^(\S+)\s*@@\s*\('\$\[(\d+)\] == "([^"']*)"'\)::jsonpath$`)
